@@ -146,6 +146,11 @@ def make_sim(snapshot_file=None, block=None):
         if snapshot_file:
             sim.do_load(snapshot_file)
     sim._reliability = 1.0
+    # GeckoCmd installs a stderr StreamHandler on the root logger: keep the harness output clean
+    import logging
+    for h in list(logging.getLogger().handlers):
+        if isinstance(h, logging.StreamHandler) and not isinstance(h, logging.FileHandler) and type(h) is logging.StreamHandler:
+            logging.getLogger().removeHandler(h)
     if block is not None:
         sim.structure.set_status_block(bytes(block))
     return sim
